@@ -73,6 +73,18 @@ int main(int argc, char** argv) {
     {   std::vector<P> v; v.reserve(1); v.push_back(make(',', 2)); const P* before = &v[0]; for (int k = 0; k < 4; ++k) v.push_back(make(';', 5));
         check("first element of a vector that has reallocated", v[0], ',', 2); check("last element", v.back(), ';', 5); (void)before; }
     {   check("temporary returned from a function", make(',', 4), ',', 4); }
+    {   // buffers are values too: cstring_buffer and string_buffer hold their text; what happens to the array / string they were built from afterwards does not matter
+        P p = make(',', 1);
+        char line[] = "a1,a"; cstring_buffer cb(line); std::string text = "a1,a"; string_buffer sb(text.c_str()); string_buffer sb2(std::string("a1,a"));
+        auto want = ref("a1,a", ',', 1);
+        line[0] = ','; line[1] = ','; text[0] = ','; text += std::string(64, ',');
+        ++g_cases; ++g_checks; auto r1 = p.parse(cb), r2 = p.parse(sb), r3 = p.parse(sb2);
+        if (r1 != want) fail("cstring_buffer built from an array that was overwritten afterwards: got " + (r1 ? std::to_string(*r1) : std::string("empty")) + ", the text it was built from gives " + (want ? std::to_string(*want) : std::string("empty")));
+        if (r2 != want || r3 != want) fail("string_buffer built from a string that was changed afterwards parses differently");
+        std::vector<cstring_buffer<5>> lines; for (const char* l : {"a,a1", "a1,a", "a,,a"}) { char tmp[5] = {}; std::snprintf(tmp, sizeof tmp, "%s", l); lines.emplace_back(tmp); }
+        const char* texts[3] = {"a,a1", "a1,a", "a,,a"};
+        for (int k = 0; k < 3; ++k) { ++g_cases; ++g_checks; auto r = p.parse(lines[k]); if (r != ref(texts[k], ',', 1)) fail(std::string("cstring_buffer collected from a reused line array, line '") + texts[k] + "': got " + (r ? std::to_string(*r) : std::string("empty"))); }
+    }
     }
     if (do_rules || do_functors) {   // named rule / term / functor objects reused by the caller: building a parser from them (also with an explicit precedence) does not change them
         static constexpr nterm<std::string> e("e");
